@@ -4,6 +4,8 @@ import (
 	"fmt"
 	"regexp"
 	"strings"
+
+	"verifsim/sim/kern"
 )
 
 // C02 - output is a deterministic function of the inputs.
@@ -183,6 +185,14 @@ func (c02) Eval(c *Chooser, env *Env) *Outcome {
 		w.Opts.Format = "{{range $ := .}}{{$.Filepath}}:{{$.Line}}:{{$.Column}}: {{$.Message}} [{{$.Kind}}]\n{{end}}"
 	}
 	o.World = w
+	if kern.RaceLane {
+		// race lane: one concurrent run per world; the detector's log is read by the worker
+		r := RunLint(w, c, RunOpts{KeepTrace: env.KeepTrace})
+		o.addRun(r.K)
+		o.Nontrivial = r.K.MaxRunnable >= 2
+		o.Sig = w.Hash() ^ r.K.TraceHash
+		return o
+	}
 	kind := c.Int("world.variantkind", 6) // 0,1: schedule+map order; 2: + other CPU count; 3: repeated execution; 4: repeated call on one Linter; 5: another GOMAXPROCS
 	r0 := RunLint(w, nil, RunOpts{Canonical: true})
 	o.addRun(r0.K)
